@@ -8,6 +8,7 @@ import Statrs.Gen.All
 import Statrs.Model.FHand
 import Statrs.Model.Empirical
 import Statrs.Model.SamplerDispatch
+import Statrs.Model.VecDispatch
 import Statrs.Model.MVDispatch
 import Statrs.Model.RankDispatch
 import Statrs.Model.CatDispatch
@@ -105,7 +106,7 @@ def empTable : List (String × (List Arg → String)) := [
     | _ => "bad-args")]
 
 def table : List (String × (List Arg → String)) :=
-  Statrs.Model.MVDispatch.mvTable ++ Statrs.Model.SamplerDispatch.sampleTable ++ Statrs.Model.RankDispatch.rankTable ++ Statrs.Model.CatDispatch.catTable ++ empTable ++ orderTable ++ genTable ++
+  Statrs.Model.MVDispatch.mvTable ++ Statrs.Model.VecDispatch.vecTable ++ Statrs.Model.SamplerDispatch.sampleTable ++ Statrs.Model.RankDispatch.rankTable ++ Statrs.Model.CatDispatch.catTable ++ empTable ++ orderTable ++ genTable ++
   statEntries "min" (IterStatistics.min (α := Float)) ++
   statEntries "max" (IterStatistics.max (α := Float)) ++
   statEntries "abs_min" (IterStatistics.abs_min (α := Float)) ++
